@@ -319,6 +319,9 @@ inline IsoResult isolated_once(std::function<void(std::string&)> body, double li
 
 inline int main_impl(int argc, char** argv)
 {
+    // line-buffered: in recover mode ASan calls Die() at the 26th distinct faulting PC (its pool of reported PCs is full);
+    // the failures recorded before that must already be in the pipe, or only a coarse "fatal:rc=1" is left
+    setvbuf(stdout, nullptr, _IOLBF, 0);
     Ctx ctx;
     std::string mode;
     for (int i = 1; i < argc; ++i)
